@@ -18,6 +18,10 @@ import (
 	"google.golang.org/grpc/keepalive"
 )
 
+// maxMessageSize is the largest gRPC message the server accepts or sends: the
+// documented 10MB value limit plus room for keys and the message envelope
+const maxMessageSize = 16 * 1024 * 1024
+
 // Server represents the Kevo server
 type Server struct {
 	eng                *engine.EngineFacade
@@ -93,6 +97,11 @@ func (s *Server) Start() error {
 	serverOpts = append(serverOpts,
 		grpc.KeepaliveParams(kaProps),
 		grpc.KeepaliveEnforcementPolicy(kaPolicy),
+		// The service accepts values of up to 10MB (and batches of them are
+		// bounded by its own checks); gRPC's default limit of 4MB per message
+		// would refuse requests and responses the service documents as valid
+		grpc.MaxRecvMsgSize(maxMessageSize),
+		grpc.MaxSendMsgSize(maxMessageSize),
 	)
 
 	// Create gRPC server with options
